@@ -12,12 +12,20 @@ Decided:
          or it is a ``getattr`` with default;
   R15.b  pass-through: every ``return`` yields the ``next()`` value (or a ``next(...)`` call) -- never a new
          object; body/status mutators on that value (response/data/status/status_code stores, set_data)
-         are dominated by a test on the request (content negotiation / explicit trigger);
+         are dominated by a branch whose test reads the request (directly, through a named temporary or
+         through a flag set under such tests) and whose other side reaches a return without any mutation
+         (content negotiation / explicit trigger -- a validity test whose other side raises does not count);
   R15.c  handlers around ``next()`` re-raise on every path (profiler: unless raise_exc was switched off,
          default True);
-  R15.d  gzip bookkeeping: where the body is replaced, Content-Length (len of the same compressed value)
-         and Content-Encoding 'gzip' are assigned on every path, Vary: Accept-Encoding is added before the
-         Accept-Encoding test, the compressed value comes from gzip_bytes(resp.data, ...).
+  R15.d  gzip bookkeeping: where the body is replaced (``resp.response = [v]``, or ``set_data(v)`` / ``.data = v``
+         whose Content-Length bookkeeping is read off the pinned BaseResponse.set_data), Content-Length is
+         ``len`` of the same value and Content-Encoding 'gzip' is assigned on every path, Vary: Accept-Encoding is
+         added on every path that inspects Accept-Encoding, the value is gzip_bytes(resp.data, ...), the path
+         condition has the quality test of gzip, no previous encoding, not streamed and a size comparison that
+         does not select the larger body.  Named temporaries, inlined predicate helpers (flag form) and
+         module-level constants are looked through (diffcon.Locals, cfg flag expansion, repo.try_fold).
+Each middleware function and the gzip group run in isolation: a gap or internal error in one is reported as
+ANALYSIS-ERROR without hiding the violations of the others.
 Declined: losslessness of compression / equality of decoded bodies (values).
 """
 import ast
@@ -25,7 +33,8 @@ import os
 
 from ..core import AnalysisError, norm, short
 from ..loader import ClassInfo
-from .. import protocol
+from .. import protocol, diffcon
+from ..cfg import expand_conds
 from .common import (cfg_of, fkey, conds, has_cond, cond_texts, stmts_of, walk_body, call_tail, call_name,
                      returns_of, handler_reraises_always, stmt_of, names_loaded, isinstance_test)
 
@@ -118,170 +127,232 @@ def run(rep):
     rep.rule('R15.a', 'attributes used on next() results are defined by every class that can flow there, or guarded')
     rep.rule('R15.b', 'returns yield the next() value; body/status mutators are dominated by a test on the request')
     rep.rule('R15.c', 'exception handlers around next() re-raise')
-    n_funcs = 0
     for fi in sorted(funcs, key=lambda f: f.key):
-        n_funcs += 1
-        mod = fi.mod
-        nd = next_derived(fi)
-        # --- R15.a
-        accesses = [n for n in walk_body(fi.node) if isinstance(n, ast.Attribute) and isinstance(n.value, ast.Name)
-                    and n.value.id in nd]
-        bad = 0
-        for a in accesses:
-            var, attr = a.value.id, a.attr
-            if attr in flow_names:
-                continue
-            cs = conds(fi, a)
-            definers = resp_attrs.get(attr, [])
-            guarded = False
-            for t, p in cs:
-                if p is not True:
-                    continue
-                if isinstance(t, ast.Call) and call_name(t) == 'hasattr' and len(t.args) == 2 and norm(t.args[0]) == var \
-                        and isinstance(t.args[1], ast.Constant):
-                    g = t.args[1].value
-                    if g == attr or any(c in resp_attrs.get(g, []) for c in definers):
-                        guarded = True
-                if isinstance_test(t, var):
-                    cname = norm(t.args[1]).rpartition('.')[2]
-                    if any(c.name == cname for c in definers) or cname == 'Response':
-                        guarded = True
-            if not guarded:
-                bad += 1
-                where = [c.name for c in definers] or ['no werkzeug response class']
-                rep.fail('R15.a', fkey(fi, '%s.%s' % (var, attr)),
-                         "attribute '%s' of the next() result is not defined by BaseResponse (defined by %s); an "
-                         "HTTPException (404/405/raised error) flowing here raises AttributeError => 500; no hasattr/"
-                         "isinstance guard dominates the access" % (attr, ', '.join(where)), mod, a)
-        # a getattr(..., None) default must not be dereferenced (AttributeError on the very objects the default is for)
-        for n in walk_body(fi.node):
-            if isinstance(n, ast.Attribute) and isinstance(n.value, ast.Call) and call_name(n.value) == 'getattr' and len(n.value.args) == 3 \
-                    and isinstance(n.value.args[2], ast.Constant) and n.value.args[2].value is None:
-                bad += 1
-                rep.fail('R15.a', fkey(fi, n), "the None default of %s is dereferenced (.%s): for a response/exception without that attribute this "
-                         "raises AttributeError inside the middleware and replaces the response by a 500" % (short(n.value), n.attr), mod, n)
-        if not bad:
-            rep.ok('R15.a', fkey(fi), '%d attribute accesses on next() results %s: all BaseResponse-defined or guarded'
-                   % (len(accesses), sorted(set(a.attr for a in accesses))), mod, fi.node)
-        # --- R15.b returns
-        cfg = cfg_of(fi)
-        rets = returns_of(fi)
-        badret = [r for r in rets if not (isinstance(r.value, ast.Name) and r.value.id in nd) and not is_next_call(r.value)]
-        falls = cfg.exit in cfg.reach([cfg.entry], avoid=set(cfg.nodes_of_all(rets)), normal_only=True)
-        rep.check('R15.b', fkey(fi, 'returns'), not badret and not falls,
-                  'all %d returns yield the next() value' % len(rets) if not badret and not falls else
-                  'returns something other than the value of next(): %s' %
-                  ('; '.join(short(r) for r in badret) or 'falls off the end (None)'), mod, (badret or [fi.node])[0])
-        # --- R15.b body / status mutators
-        muts = []
-        for n in walk_body(fi.node):
-            if isinstance(n, ast.Attribute) and isinstance(n.ctx, ast.Store) and isinstance(n.value, ast.Name) \
-                    and n.value.id in nd and n.attr in BODY_ATTRS:
-                muts.append(n)
-            if isinstance(n, ast.Call) and isinstance(n.func, ast.Attribute) and n.func.attr in BODY_CALLS \
-                    and isinstance(n.func.value, ast.Name) and n.func.value.id in nd:
-                muts.append(n)
-        for mu in muts:
-            cs = conds(fi, mu)
-            req_tests = [(t, p) for t, p in cs if 'request' in names_loaded(t)]
-            ok = bool(req_tests)
-            rep.check('R15.b', fkey(fi, 'mutates ' + norm(mu.func if isinstance(mu, ast.Call) else mu)), ok,
-                      'body/status mutation happens only under a test on the request: %s' % '; '.join(cond_texts(req_tests)) if ok else
-                      'body/status of the next() result is modified without any dominating test on the request '
-                      '(every response would change)', mod, mu)
-        # --- R15.b request body untouched: parsing the form consumes wsgi.input, so the endpoint would no longer
-        #     see the raw body (table entry: PostDataMiddleware exists to read the form)
-        BODY_READERS = {'form', 'values', 'files', 'stream', 'data', 'json', 'get_data', 'get_json', 'input_stream'}
-        BODY_TABLE = {'clastic.middleware.form::PostDataMiddleware.request': 'extracts POST form fields by design'}
-        reads = [n for n in walk_body(fi.node) if isinstance(n, ast.Attribute) and n.attr in BODY_READERS and norm(n.value) == 'request']
-        if fi.key in BODY_TABLE:
-            rep.ok('R15.b', fkey(fi, 'request body'), 'table entry: ' + BODY_TABLE[fi.key], mod, fi.node)
-        else:
-            rep.check('R15.b', fkey(fi, 'request body'), not reads, 'does not read / parse the request body' if not reads else
-                      'reads %s: the request body is parsed (and wsgi.input consumed) by a middleware that should be a pass-through, so '
-                      'an endpoint reading the raw body gets nothing' % sorted(set('request.' + n.attr for n in reads)), mod,
-                      reads[0] if reads else fi.node)
-        # --- R15.c
-        for st in stmts_of(fi.node):
-            if not isinstance(st, ast.Try):
-                continue
-            body_calls = [c for b in st.body for c in ast.walk(b) if isinstance(c, ast.Call) and is_next_call(c)]
-            if not body_calls:
-                continue
-            for h in st.handlers:
-                ok = handler_reraises_always(fi, h)
-                how = 're-raises on every path'
-                if not ok:
-                    # documented opt-out: "if self.<flag>: raise" with the flag defaulting to True
-                    flags = [s for s in h.body if isinstance(s, ast.If) and norm(s.test).startswith('self.')
-                             and any(isinstance(x, ast.Raise) and x.exc is None for x in s.body)]
-                    if flags:
-                        flag = norm(flags[0].test)[5:]
-                        ci = fi.cls
-                        init = repo.find_method(ci, '__init__') if ci else None
-                        dflt = None
-                        if init is not None:
-                            a = init.node.args
-                            names = [x.arg for x in a.args]
-                            if flag in names:
-                                i = names.index(flag) - (len(names) - len(a.defaults))
-                                if i >= 0 and isinstance(a.defaults[i], ast.Constant):
-                                    dflt = a.defaults[i].value
-                        ok = dflt is True
-                        how = 're-raises unless self.%s was switched off (default True)' % flag
-                rep.check('R15.c', fkey(fi, 'except ' + norm(h.type)), ok,
-                          'handler around next() ' + how if ok else
-                          'handler around next() can swallow the exception (does not re-raise on every path)', mod, h)
-    rep.floor('R15.a', 9, '(middleware functions)')
-    rep.floor('R15.b', 9)
-    rep.floor('R15.c', 3)
+        _guarded(rep, _one_middleware, rep, repo, fi, flow_names, resp_attrs)
+    _guarded(rep, _gzip_bookkeeping, rep, repo, base)
+    for rule, n in (('R15.a', 9), ('R15.b', 9), ('R15.c', 3), ('R15.d', 8)):
+        rep.guard(rep.floor, rule, n)
 
-    # ---- R15.d gzip ----------------------------------------------------------
+
+def _guarded(rep, group, *args):
+    """Run one rule group; whatever goes wrong inside it is an analysis gap (ANALYSIS-ERROR at the end), the other groups
+    still run and their violations are still reported."""
+    def run_group():
+        try:
+            return group(*args)
+        except AnalysisError:
+            raise
+        except Exception as e:       # a rule tripping over an unexpected shape must not take the whole check down
+            raise AnalysisError('internal error %s: %s' % (type(e).__name__, e))
+    run_group.__name__ = '%s%s' % (group.__name__, ''.join(' ' + a.key for a in args if hasattr(a, 'key')))
+    return rep.guard(run_group)
+
+
+
+def _one_middleware(rep, repo, fi, flow_names, resp_attrs):
+    cfg = cfg_of(fi)
+    mod = fi.mod
+    nd = next_derived(fi)
+    loc = diffcon.Locals(fi.node, cfg_of(fi), keep=nd)
+    rconds = lambda n: expand_conds(loc.conds(conds(fi, n), mod))     # named temporaries in tests looked through
+    # --- R15.a
+    accesses = [n for n in walk_body(fi.node) if isinstance(n, ast.Attribute) and isinstance(n.value, ast.Name)
+                and n.value.id in nd]
+    bad = 0
+    for a in accesses:
+        var, attr = a.value.id, a.attr
+        if attr in flow_names:
+            continue
+        cs = rconds(a)
+        definers = resp_attrs.get(attr, [])
+        guarded = False
+        for t, p in cs:
+            if p is not True:
+                continue
+            if isinstance(t, ast.Call) and call_name(t) == 'hasattr' and len(t.args) == 2 and norm(t.args[0]) == var \
+                    and isinstance(t.args[1], ast.Constant):
+                g = t.args[1].value
+                if g == attr or any(c in resp_attrs.get(g, []) for c in definers):
+                    guarded = True
+            if isinstance_test(t, var):
+                cname = norm(t.args[1]).rpartition('.')[2]
+                if any(c.name == cname for c in definers) or cname == 'Response':
+                    guarded = True
+        if not guarded:
+            bad += 1
+            where = [c.name for c in definers] or ['no werkzeug response class']
+            rep.fail('R15.a', fkey(fi, '%s.%s' % (var, attr)),
+                     "attribute '%s' of the next() result is not defined by BaseResponse (defined by %s); an "
+                     "HTTPException (404/405/raised error) flowing here raises AttributeError => 500; no hasattr/"
+                     "isinstance guard dominates the access" % (attr, ', '.join(where)), mod, a)
+    # a getattr(..., None) default must not be dereferenced (AttributeError on the very objects the default is for)
+    for n in walk_body(fi.node):
+        if isinstance(n, ast.Attribute) and isinstance(n.value, ast.Call) and call_name(n.value) == 'getattr' and len(n.value.args) == 3 \
+                and isinstance(n.value.args[2], ast.Constant) and n.value.args[2].value is None:
+            bad += 1
+            rep.fail('R15.a', fkey(fi, n), "the None default of %s is dereferenced (.%s): for a response/exception without that attribute this "
+                     "raises AttributeError inside the middleware and replaces the response by a 500" % (short(n.value), n.attr), mod, n)
+    if not bad:
+        rep.ok('R15.a', fkey(fi), '%d attribute accesses on next() results %s: all BaseResponse-defined or guarded'
+               % (len(accesses), sorted(set(a.attr for a in accesses))), mod, fi.node)
+    # --- R15.b returns
+    cfg = cfg_of(fi)
+    rets = returns_of(fi)
+    badret = [r for r in rets if not (isinstance(r.value, ast.Name) and r.value.id in nd) and not is_next_call(r.value)]
+    falls = cfg.exit in cfg.reach([cfg.entry], avoid=set(cfg.nodes_of_all(rets)), normal_only=True)
+    rep.check('R15.b', fkey(fi, 'returns'), not badret and not falls,
+              'all %d returns yield the next() value' % len(rets) if not badret and not falls else
+              'returns something other than the value of next(): %s' %
+              ('; '.join(short(r) for r in badret) or 'falls off the end (None)'), mod, (badret or [fi.node])[0])
+    # --- R15.b body / status mutators
+    muts = []
+    for n in walk_body(fi.node):
+        if isinstance(n, ast.Attribute) and isinstance(n.ctx, ast.Store) and isinstance(n.value, ast.Name) \
+                and n.value.id in nd and n.attr in BODY_ATTRS:
+            muts.append(n)
+        if isinstance(n, ast.Call) and isinstance(n.func, ast.Attribute) and n.func.attr in BODY_CALLS \
+                and isinstance(n.func.value, ast.Name) and n.func.value.id in nd:
+            muts.append(n)
+    mut_stmts = [stmt_of(mod, mu) for mu in muts]
+    mut_nodes = set(cfg.nodes_of_all(mut_stmts))
+    for mu, mst in zip(muts, mut_stmts):
+        # a dominating branch whose test reads the request (directly, through a named temporary or through a flag
+        # set under such tests) and whose *other* side lets the next() value through to a return untouched
+        req_tests = []
+        at = [n for n in cfg.nodes_of(mst) if cfg.reachable(n)]
+        for t, p in cfg.conds_at_stmt(mst, expand=False):
+            der = loc.conds(cfg._expand_named(expand_conds([(t, p)]), at[0]) if at else [(t, p)], mod)
+            if not any('request' in names_loaded(x) for x, _ in der):
+                continue
+            other = cfg.branch_nodes(t, not p)
+            if cfg.exit in cfg.reach(other, avoid=mut_nodes, normal_only=True):
+                req_tests.append((t, p))
+        ok = bool(req_tests)
+        rep.check('R15.b', fkey(fi, 'mutates ' + norm(mu.func if isinstance(mu, ast.Call) else mu)), ok,
+                  'body/status mutation happens only under a test on the request: %s' % '; '.join(cond_texts(req_tests)) if ok else
+                  'body/status of the next() result is modified without any dominating test on the request that lets other '
+                  'requests pass through untouched (every response would change)', mod, mu)
+    # --- R15.b request body untouched: parsing the form consumes wsgi.input, so the endpoint would no longer
+    #     see the raw body (table entry: PostDataMiddleware exists to read the form)
+    BODY_READERS = {'form', 'values', 'files', 'stream', 'data', 'json', 'get_data', 'get_json', 'input_stream'}
+    BODY_TABLE = {'clastic.middleware.form::PostDataMiddleware.request': 'extracts POST form fields by design'}
+    reads = [n for n in walk_body(fi.node) if isinstance(n, ast.Attribute) and n.attr in BODY_READERS and norm(n.value) == 'request']
+    if fi.key in BODY_TABLE:
+        rep.ok('R15.b', fkey(fi, 'request body'), 'table entry: ' + BODY_TABLE[fi.key], mod, fi.node)
+    else:
+        rep.check('R15.b', fkey(fi, 'request body'), not reads, 'does not read / parse the request body' if not reads else
+                  'reads %s: the request body is parsed (and wsgi.input consumed) by a middleware that should be a pass-through, so '
+                  'an endpoint reading the raw body gets nothing' % sorted(set('request.' + n.attr for n in reads)), mod,
+                  reads[0] if reads else fi.node)
+    # --- R15.c
+    for st in stmts_of(fi.node):
+        if not isinstance(st, ast.Try):
+            continue
+        body_calls = [c for b in st.body for c in ast.walk(b) if isinstance(c, ast.Call) and is_next_call(c)]
+        if not body_calls:
+            continue
+        for h in st.handlers:
+            ok = handler_reraises_always(fi, h)
+            how = 're-raises on every path'
+            if not ok:
+                # documented opt-out: "if self.<flag>: raise" with the flag defaulting to True
+                flags = [s for s in h.body if isinstance(s, ast.If) and norm(s.test).startswith('self.')
+                         and any(isinstance(x, ast.Raise) and x.exc is None for x in s.body)]
+                if flags:
+                    flag = norm(flags[0].test)[5:]
+                    ci = fi.cls
+                    init = repo.find_method(ci, '__init__') if ci else None
+                    dflt = None
+                    if init is not None:
+                        a = init.node.args
+                        names = [x.arg for x in a.args]
+                        if flag in names:
+                            i = names.index(flag) - (len(names) - len(a.defaults))
+                            if i >= 0 and isinstance(a.defaults[i], ast.Constant):
+                                dflt = a.defaults[i].value
+                    ok = dflt is True
+                    how = 're-raises unless self.%s was switched off (default True)' % flag
+            rep.check('R15.c', fkey(fi, 'except ' + norm(h.type)), ok,
+                      'handler around next() ' + how if ok else
+                      'handler around next() can swallow the exception (does not re-raise on every path)', mod, h)
+
+
+def _gzip_bookkeeping(rep, repo, base):
     rep.rule('R15.d', 'gzip replaces body, Content-Length and Content-Encoding together; Vary before the Accept-Encoding test')
     gz = repo.mod('clastic.middleware.compress').func('GzipMiddleware.request')
     cfg = cfg_of(gz)
     nd = next_derived(gz)
+    L = diffcon.Locals(gz.node, cfg, keep=nd)
     stores = {}
     for s in stmts_of(gz.node):
         if isinstance(s, ast.Assign) and len(s.targets) == 1 and isinstance(s.targets[0], ast.Attribute) \
                 and isinstance(s.targets[0].value, ast.Name) and s.targets[0].value.id in nd:
             stores.setdefault(s.targets[0].attr, []).append(s)
-    if 'response' not in stores:
+    # where the body is replaced: ``resp.response = [value]``, or through the public API ``resp.set_data(value)`` /
+    # ``resp.data = value`` (BaseResponse.set_data stores [value] and -- checked below in the pinned source -- the
+    # Content-Length of it)
+    setters = [s for s in stmts_of(gz.node) if isinstance(s, ast.Expr) and isinstance(s.value, ast.Call) and isinstance(s.value.func, ast.Attribute)
+               and s.value.func.attr == 'set_data' and isinstance(s.value.func.value, ast.Name) and s.value.func.value.id in nd
+               and len(s.value.args) == 1 and not s.value.keywords]
+    via_api = False
+    if 'response' in stores:
+        body_st = stores['response'][0]
+        bv = body_st.value
+        comp_e = bv.elts[0] if isinstance(bv, (ast.List, ast.Tuple)) and len(bv.elts) == 1 and not isinstance(bv.elts[0], ast.Starred) else None
+    elif 'data' in stores or setters:
+        body_st = (stores.get('data') or setters)[0]
+        comp_e = body_st.value if isinstance(body_st, ast.Assign) else body_st.value.args[0]
+        sd = repo.find_method(base, 'set_data')
+        via_api = sd is not None and any(
+            isinstance(x, ast.Assign) and any(isinstance(t, ast.Subscript) and isinstance(t.slice, ast.Constant) and t.slice.value == 'Content-Length'
+                                              for t in x.targets) and 'len(' in norm(x.value) for x in ast.walk(sd.node))
+    else:
         raise AnalysisError('GzipMiddleware.request no longer replaces resp.response')
-    body_st = stores['response'][0]
-    comp_names = [n.id for n in ast.walk(body_st.value) if isinstance(n, ast.Name)]
-    comp = comp_names[0] if len(comp_names) == 1 else None
+    comp_r = L.resolve(comp_e, body_st) if comp_e is not None else None
+    comp = norm(comp_r) if comp_r is not None else None
     for attr, want in (('content_length', None), ('content_encoding', 'gzip')):
         sts = stores.get(attr, [])
         nodes = cfg.nodes_of_all(sts)
         ok = bool(sts) and (cfg.must_pass(nodes, cfg.nodes_of(body_st), [cfg.exit]) or
                             cfg.must_pass(nodes, cfg.entry, cfg.nodes_of(body_st)))
-        if ok and attr == 'content_length':
-            v = sts[0].value
-            ok = isinstance(v, ast.Call) and call_name(v) == 'len' and comp is not None and norm(v.args[0]) == comp
-            detail = 'Content-Length is len(%s), the value stored as body' % comp
+        if attr == 'content_length' and not sts and via_api:
+            ok, detail = True, 'Content-Length is set by BaseResponse.set_data to the length of the value stored as body'
+        elif ok and attr == 'content_length':
+            for st_ in sts:
+                # follow the named temporaries of the stored value to the ``len(X)`` that computes it; X must denote the value stored as body
+                cur_e, cur_s = st_.value, st_
+                for _ in range(6):
+                    if not isinstance(cur_e, ast.Name):
+                        break
+                    b = L.binding(cur_e.id, cur_s)
+                    if b is None:
+                        break
+                    cur_e, cur_s = b
+                ok = ok and isinstance(cur_e, ast.Call) and call_name(cur_e) == 'len' and len(cur_e.args) == 1 and not cur_e.keywords \
+                    and comp_e is not None and L.same(cur_e.args[0], cur_s, comp_e, body_st)
+            detail = 'Content-Length is len(%s), the value stored as body' % short(comp_e)
         elif ok:
-            v = sts[0].value
-            ok = isinstance(v, ast.Constant) and v.value == want
+            for st_ in sts:
+                ok = ok and repo.try_fold(L.resolve(st_.value, st_), gz.mod) == want
             detail = "Content-Encoding is set to 'gzip' wherever the body is replaced"
         rep.check('R15.d', fkey(gz, 'resp.%s' % attr), ok, detail if ok else
                   'replacing the body is not always accompanied by a matching %s assignment' % attr, gz.mod,
                   sts[0] if sts else body_st)
     # compressed value provenance
-    src = [s for s in stmts_of(gz.node) if isinstance(s, ast.Assign) and comp and norm(s.targets[0]) == comp]
-    ok = len(src) == 1 and isinstance(src[0].value, ast.Call) and call_tail(src[0].value) == 'gzip_bytes' and \
-        src[0].value.args and isinstance(src[0].value.args[0], ast.Attribute) and src[0].value.args[0].attr == 'data' and \
-        isinstance(src[0].value.args[0].value, ast.Name) and src[0].value.args[0].value.id in nd
+    data_of = lambda e: (isinstance(e, ast.Attribute) and e.attr == 'data' and isinstance(e.value, ast.Name) and e.value.id in nd) or \
+        (isinstance(e, ast.Call) and isinstance(e.func, ast.Attribute) and e.func.attr == 'get_data' and not e.args and not e.keywords
+         and isinstance(e.func.value, ast.Name) and e.func.value.id in nd)
+    ok = isinstance(comp_r, ast.Call) and call_tail(comp_r) == 'gzip_bytes' and bool(comp_r.args) and data_of(comp_r.args[0])
     rep.check('R15.d', fkey(gz, 'compressed value'), ok, 'body is gzip_bytes(<next() result>.data, ...)' if ok else
-              'the replacement body is not gzip_bytes of the original data', gz.mod, src[0] if src else body_st)
+              'the replacement body is not gzip_bytes of the original data', gz.mod, body_st)
     # the body is replaced only if the client accepts gzip and no encoding is present yet
-    cs = conds(gz, body_st)
+    cs = expand_conds(L.conds(conds(gz, body_st), gz.mod))
 
     def acc(t):
         """a *quality* test of gzip in Accept-Encoding: accept_encodings['gzip'] / .quality('gzip') (q=0 means refused);
         plain membership ('gzip' in accept_encodings) is true for 'gzip;q=0' and is not accepted here"""
         for n in ast.walk(t):
-            if isinstance(n, ast.Subscript) and 'accept_encodings' in norm(n.value) and isinstance(n.slice, ast.Constant) and n.slice.value == 'gzip':
+            if isinstance(n, ast.Subscript) and 'accept_encodings' in norm(n.value) and repo.try_fold(n.slice, gz.mod) == 'gzip':
                 return True
             if isinstance(n, ast.Call) and isinstance(n.func, ast.Attribute) and n.func.attr in ('quality', 'best_match', 'find') and \
                     'accept_encodings' in norm(n.func.value) and "'gzip'" in norm(n):
@@ -296,30 +367,51 @@ def run(rep):
                 neg_ok = neg_ok or p is True
             elif isinstance(t, ast.BoolOp) and isinstance(t.op, ast.Or) and p is False:
                 neg_ok = neg_ok or any(isinstance(v, ast.UnaryOp) and isinstance(v.op, ast.Not) and acc(v.operand) for v in t.values)
-    from ..cfg import expand_conds
-    neg_ok = neg_ok or any(acc(t) and p is True and not isinstance(t, ast.BoolOp) for t, p in expand_conds(cs))
+    neg_ok = neg_ok or any(acc(t) and p is True and not isinstance(t, ast.BoolOp) for t, p in cs)
     rep.check('R15.d', fkey(gz, 'accept-encoding guard'), ok and neg_ok,
               'body replaced only when request.accept_encodings[\'gzip\'] is truthy' if ok and neg_ok else
               'body replacement is not conditioned on the client accepting gzip', gz.mod, body_st)
-    ce = lambda t: isinstance(t, ast.Attribute) and t.attr == 'content_encoding'
-    ok = any(ce(t) and p is False for t, p in expand_conds(cs))
+    ce = lambda t: isinstance(t, ast.Attribute) and t.attr == 'content_encoding' and isinstance(t.value, ast.Name) and t.value.id in nd
+    ok = any(ce(t) and p is False for t, p in cs)
     rep.check('R15.d', fkey(gz, 'no double encoding'), ok, 'already-encoded responses are left alone' if ok else
               'responses that already carry a Content-Encoding can be compressed again', gz.mod, body_st)
-    # never grow the body
-    ok = any(isinstance(t, ast.Compare) and isinstance(t.ops[0], (ast.GtE, ast.Gt, ast.Lt, ast.LtE)) and 'len' in norm(t)
-             for t, p in cs)
+    # never grow the body: the path condition entails len(<compressed>) <= len(<original data>); a size comparison
+    # over other operands is accepted as long as the facts do not say the opposite
+    facts = diffcon.facts_from_conds(cs)
+    size_cmp = [t for t, p in cs if isinstance(t, ast.Compare) and isinstance(t.ops[0], (ast.GtE, ast.Gt, ast.Lt, ast.LtE)) and 'len(' in norm(t)]
+    ok = bool(size_cmp)
+    if ok and comp is not None and isinstance(comp_r, ast.Call) and comp_r.args:
+        small, big = 'len(%s)' % comp, 'len(%s)' % norm(comp_r.args[0])
+        if not diffcon.entails(facts, (small, big, False)) and diffcon.entails(facts, (big, small, False)):
+            ok = False       # the comparison is over these two sizes and selects the body that is not smaller
     rep.check('R15.d', fkey(gz, 'size guard'), ok, 'compressed body is used only if it is smaller' if ok else
-              'no size comparison guards the replacement', gz.mod, body_st)
+              'no size comparison guards the replacement (or it selects the larger body)', gz.mod, body_st)
     # streamed responses untouched
-    ok = any(isinstance(t, ast.Attribute) and t.attr == 'is_streamed' and p is False for t, p in expand_conds(cs))
+    ok = any(isinstance(t, ast.Attribute) and t.attr == 'is_streamed' and p is False for t, p in cs)
     rep.check('R15.d', fkey(gz, 'streamed'), ok, 'streamed responses are not buffered/compressed' if ok else
               'streamed responses are no longer exempt', gz.mod, body_st)
-    # Vary
-    vary = [s for s in stmts_of(gz.node) if isinstance(s, ast.Expr) and isinstance(s.value, ast.Call)
-            and norm(s.value.func).endswith('.vary.add') and s.value.args and isinstance(s.value.args[0], ast.Constant)
-            and s.value.args[0].value.lower() == 'accept-encoding']
-    acc_ifs = [s for s in stmts_of(gz.node) if isinstance(s, ast.If) and acc(s.test)]
-    ok = bool(vary) and bool(acc_ifs) and all(cfg.must_pass(cfg.nodes_of_all(vary), cfg.entry, cfg.nodes_of(i)) for i in acc_ifs)
+    # Vary: on every path on which Accept-Encoding is inspected, Vary: Accept-Encoding has been added before, or is added afterwards
+    def is_vary(s):
+        if not (isinstance(s, ast.Expr) and isinstance(s.value, ast.Call) and isinstance(s.value.func, ast.Attribute)
+                and s.value.func.attr == 'add' and len(s.value.args) == 1):
+            return False
+        recv = L.resolve(s.value.func.value, s)
+        v = repo.try_fold(L.resolve(s.value.args[0], s), gz.mod)
+        return isinstance(recv, ast.Attribute) and recv.attr == 'vary' and isinstance(recv.value, ast.Name) and recv.value.id in nd \
+            and isinstance(v, str) and v.lower() == 'accept-encoding'
+    vary = [s for s in stmts_of(gz.node) if is_vary(s)]
+    vary_nodes = cfg.nodes_of_all(vary)
+    def _evaluated(s):
+        """expressions the statement itself evaluates, named temporaries looked through"""
+        es = []
+        if isinstance(s, (ast.If, ast.While)):
+            es = [s.test]
+        elif isinstance(s, (ast.Assign, ast.AugAssign, ast.AnnAssign, ast.Return, ast.Expr)) and s.value is not None:
+            es = [s.value]
+        return [L.resolve(e, s) for e in es]
+    acc_sts = [s for s in stmts_of(gz.node) if any(acc(e) for e in _evaluated(s))]
+    ok = bool(vary) and bool(acc_sts) and all(cfg.must_pass(vary_nodes, cfg.entry, cfg.nodes_of(i)) or
+                                               cfg.must_pass(vary_nodes, cfg.nodes_of(i), [cfg.exit]) for i in acc_sts)
     rep.check('R15.d', fkey(gz, 'Vary'), ok, "Vary: Accept-Encoding is added before the response is made to depend on the header" if ok else
               'Vary: Accept-Encoding is not added on every path that inspects Accept-Encoding', gz.mod,
               vary[0] if vary else gz.node)
